@@ -24,8 +24,8 @@ from typing import Any, Callable, Dict, Iterable, List, Optional, Sequence
 VERIF = Path(__file__).resolve().parent.parent
 REPO = Path(os.environ.get('FSIC_REPO', '/repo'))
 SPEC = VERIF / 'spec'
-EVIDENCE = VERIF / 'evidence'
-REPLAYS = VERIF / 'replays'
+EVIDENCE = Path(os.environ.get('FSIC_VERIF_EVIDENCE', VERIF / 'evidence'))
+REPLAYS = Path(os.environ.get('FSIC_VERIF_REPLAYS', VERIF / 'replays'))
 KNOWN = VERIF / 'KNOWN_FINDINGS.txt'
 PY = '/venv/bin/python'
 TLA_JAR = '/opt/veriftools/tla/tla2tools.jar'
